@@ -60,7 +60,7 @@ let walk_s ((vs, a) : visit list * action) : string =
   Printf.sprintf "v=%s r=%s" (match vs with [] -> "-" | _ -> String.concat "," (List.map visit_s vs)) (action_s a)
 
 let gerr_s = function GNil -> "-" | GBadPattern -> "BadPattern" | GOutOfFuel -> "OutOfFuel"
-let glob_s ((m, e) : str list * gerr) : string =
+let glob_s ((m, e) : str list * glob_err) : string =
   Printf.sprintf "m=%s r=%s" (match m with [] -> "-" | _ -> String.concat "," (List.map hex_of_bytes m)) (gerr_s e)
 
 let variants = [""; "#bp"; "#cow"]
